@@ -655,6 +655,34 @@ def shared_weight_model(rng):
   return mb.finish(), {'n_subgraphs': 1, 'ops': [2]}
 
 
+def biasless_fc_model(rng):
+  """x -> FULLY_CONNECTED(w, no bias: operand index -1) -> RELU/NEG -> y: the tensor table
+  ends with tensors of an operator a FULLY_CONNECTED-only recipe leaves alone"""
+  mb = ModelBuilder(rng, name_style=0)
+  gb = GraphBuilder(mb, 0, 'serving_default')
+  bsz, n, m_ = rng.choice([1, 2]), rng.choice([3, 4]), rng.choice([2, 3])
+  x = gb.act('serving_default_x', (bsz, n))
+  gb.g.inputs.append(x)
+  w = gb.fconst('serving_default/fc/w', [m_, n], kind='normal')
+  h = gb.act('serving_default/fc/out', (bsz, m_))
+  gb.op(B.FULLY_CONNECTED, [x, w, -1], [h], S.BuiltinOptions.FullyConnectedOptions,
+        gb._mk(S.FullyConnectedOptionsT, fusedActivationFunction=0, keepNumDims=False, weightsFormat=0))  # pylint: disable=protected-access
+  kind = rng.choice(['RELU', 'NEG'])
+  y = gb.act(f'serving_default/{kind.lower()}/out', (bsz, m_))
+  gb.op(getattr(B, kind), [h], [y])
+  gb.g.outputs = np.array([y], dtype=np.int32)
+  gb.g.inputs = np.array(gb.g.inputs, dtype=np.int32)
+  mb.m.subgraphs.append(gb.g)
+  sd = S.SignatureDefT()
+  sd.signatureKey = b'serving_default'
+  sd.subgraphIndex = 0
+  sd.inputs, sd.outputs = [], []
+  tm = S.TensorMapT(); tm.name = b'x'; tm.tensorIndex = int(x); sd.inputs.append(tm)
+  tm = S.TensorMapT(); tm.name = b'y'; tm.tensorIndex = int(y); sd.outputs.append(tm)
+  mb.m.signatureDefs.append(sd)
+  return mb.finish(), {'n_subgraphs': 1, 'ops': [2]}
+
+
 def unknown_reader_model(rng):
   """x -> MAXIMUM(x, C) -> ADD/MUL(y, C): ONE constant tensor read by an operator the
   quantizer does not know (it stays float) and by a quantizable operator"""
